@@ -118,6 +118,32 @@ CLAIMS = {
     design_ref="DESIGN.md section 5 C02",
     note="As C09. Error/warning lists are not part of a save; the cosmetic choice index is ignored.",
     technique="Lean 4 round-trip theorems over the save codec (partial) + differential correspondence + lockstep oracle"),
+ "C07": dict(
+    category="proof",
+    text=("Proved: 32-bit integer + - *, truncating division, modulo with the sign of the dividend, the division law, "
+          "comparisons, MIN/MAX, the coercion ladder (bool->int->float->string) for every binary operator, string "
+          "concatenation and containment, list union / difference / intersection / has as set operations on keys, "
+          "LIST_COUNT, LIST_MIN/MAX as extrema of the total order, sorted printing; and for EVERY expression tree that "
+          "its value, printed text and faults are independent of the order in which list items are stored "
+          "(order_independent, ~2400 lines of permutation lemmas). Oracle: typed random trees and the exhaustive "
+          "operator x leaf table are rendered to Ink, compiled and played by the real code and compared with the "
+          "tree's value under Ink/Expr.lean; the same scripts run on the interpreter model."),
+    design_ref="DESIGN.md section 5 C07",
+    note="Float arithmetic is Lean's Float32 (IEEE single) and a re-implemented shortest-round-trip Display; POW only "
+         "with small integer arguments. Contested operator precedences (&& vs ||, * vs /) are not judged.",
+    technique="Lean 4 theorems over the operator model + differential test against an independent tree evaluator"),
+ "C03": dict(
+    category="proof",
+    text=("Proved: the model is a pure function of program, seed and host calls except for the hash order of list "
+          "items, which it takes as an explicit input; every operator, printed list, LIST_MIN/MAX, LIST_RANDOM pick, "
+          "LIST_ALL/INVERT and list+n is invariant under permutation of that order. Tie: the inventory of hash-"
+          "iteration sites of runtime/ and compiler/ is regenerated from the source on every run and compared with "
+          "the reviewed list c03_sites.json; transcripts replayed on the model. Oracle: transcripts of one history "
+          "are identical in 4 processes (fresh hash seeds), twice within a process and in the release build; the "
+          "compiler's output is byte-identical across processes and profiles."),
+    design_ref="DESIGN.md section 5 C03",
+    note="Notification order of observers within one call is outside C03. Saves are compared as JSON values.",
+    technique="Lean 4 permutation-invariance theorems + source-site inventory + repeated-run oracle"),
 }
 
 REASONS_PENDING = "check not built yet in this revision of /verif (see DESIGN.md section 9.1 for the order of work)"
